@@ -13,14 +13,17 @@ Call paths
   py          `calc_inclination.py_func` (un-jitted source) with python floats and with a 1-D array
   jit_scalar  the numba dispatcher users call, float argument
   jit_array   the numba dispatcher, 1-D float64 array argument
-  multi_py    `mode_calc_helper.inclin_calc_orderl{L}.inclination_on/off_maxl_L.py_func` (python body calling
-              the per-degree dispatchers): best-effort extra (module-internal names, not part of the statement): if
-              the helper is absent the case is labelled `multi:absent` and nothing is judged; if present its result
-              must contain the keys 2..L, each the table of that degree
-  multi_jit   the same helper, compiled
+  multi_py    the stacked multi-degree helpers that deliver the tables to the package: route 1 the public
+              `mode_calc_helper.inclination_functions_lookup[use_obliquity][L]`, route 2 the module functions
+              `inclin_calc_orderl{L}.inclination_on/off_maxl_L` when they are other objects; un-jitted body (calling
+              whatever dispatchers it calls).  For every degree 2..L: ON result at I == F_lmp(I)^2; OFF result, called
+              with the same generated NON-ZERO obliquity (which it is documented to ignore), == F_lmp(0)^2 with the
+              cells that vanish at I = 0 absent or zero.  A route that does not exist is labelled (`lookup:absent`,
+              `multi:absent`) and not judged; keys beyond 2..L are not judged.
+  multi_jit   the same routes, compiled
   (`.py_func` is taken as getattr(f, 'py_func', f): a plain function is used as it is)
-  Quick tier: py for every l; jit_scalar for every l; jit_array for l <= 4; multi_* for L <= 4 (numba cold
-  compile of the l = 7 array signature is 18 s, the l = 7 helper 20+ s); thorough tier: everything.
+  Quick tier: py, jit_scalar, multi_py, multi_jit for every l / L = 2..7; jit_array for l <= 4 (numba cold compile of
+  the l = 7 array signature is 18 s); thorough tier: everything.
 
 Oracles
   full    table[(m,p)](I) == Kaula (1966) eq. 3.62 F_lmp(I)^2, evaluated by /verif/oracles/kaula.py
@@ -82,7 +85,7 @@ LEVEL_TEXT = ('Every one of the 199 (l,m,p) cells, l=2..7, of the full and obliq
               'the tolerance stated, not that every double in [0,pi] was tried.')
 LEVEL_NOTE = ('Trusts mpmath sin/cos at 40 digits, python integer/Fraction arithmetic and the transcription of Kaula eq. 3.62 in '
               'oracles/kaula.py, which is itself validated on every run against closed forms and the defining rotation identity; '
-              'quick tier exercises the compiled array signature only for l<=4 and the multi-degree helpers for L<=4.')
+              'quick tier exercises the compiled array signature only for l<=4.')
 CASES = {'quick': 3000, 'thorough': 600000}
 SHARDS = {'quick': 8, 'thorough': 16}
 TOL = 1e-10
@@ -133,8 +136,19 @@ def _helpers(L):
         return None
 
 
+def _lookup():
+    """(on_by_L, off_by_L) of the public lookup `mode_calc_helper.inclination_functions_lookup`, or None."""
+    try:
+        from TidalPy.tides.modes.mode_calc_helper import inclination_functions_lookup as lk
+        return lk[True], lk[False]
+    except (ImportError, KeyError):
+        return None
+
+
 def _allowed(tier, l, path):
-    if tier == 'thorough' or path in ('py', 'jit_scalar'):
+    # only the compiled ARRAY signature of the big tables is expensive (l = 7: 18 s cold); the stacked helpers are called with
+    # scalars, whose per-degree dispatchers the jit_scalar path compiles anyway (12 s for all six degrees, cold)
+    if tier == 'thorough' or path != 'jit_array':
         return True
     return l <= 4
 
@@ -196,7 +210,8 @@ def fixed_cases(tier):
 
 def required_labels(tier):
     return ['l:%d' % l for l in range(2, 8)] + ['path:' + p for p in PATHS_ALL] + \
-           ['grid:l%d' % l for l in range(2, 8)] + ['obl:zero', 'obl:pi', 'obl:interior', 'obl:near_zero', 'obl:near_pi']
+           ['grid:l%d' % l for l in range(2, 8)] + ['multi:L%d' % l for l in range(2, 8)] + \
+           ['route:lookup', 'multi:off_called_with_nonzero_obliquity', 'obl:zero', 'obl:pi', 'obl:interior', 'obl:near_zero', 'obl:near_pi']
 
 
 def extra_coverage(tier, merged):
@@ -222,6 +237,11 @@ def warm():
         if hp is not None:
             hp[0](0.3)
             hp[1](0.3)
+    lk = _lookup()
+    if lk is not None:
+        for L in range(2, 8):
+            lk[0][L](0.3)
+            lk[1][L](0.3)
     from TidalPy.tides.universal_coeffs import get_universal_coeffs
     get_universal_coeffs(2)
 
@@ -391,47 +411,62 @@ def evaluate(case):
             _check_full(c, l, full_a, angles, (n,), where + '.array')
             _check_off(c, l, off_a, zero, (n,), where + '.array')
     else:
-        # Best-effort extra: the multi-degree helpers are module-internal plumbing of the same tables (not named by the
-        # property).  When they do not exist under these names nothing is judged; when they do, every degree 2..L they
-        # return must be that degree's table (further keys are not judged).
+        # The stacked multi-degree helpers deliver the tables to the rest of the package (find_mode_manipulators,
+        # quick_tides, the OOP tides classes) through the public `mode_calc_helper.inclination_functions_lookup[flag][L]`.
+        # Route 1 = that lookup, route 2 = the module-level functions inclin_calc_orderl{L}.inclination_on/off_maxl_L when
+        # they are other objects.  A route that does not exist is labelled and not judged.  For every degree 2..L the ON
+        # result at obliquity I must be Kaula's F_lmp(I)^2 and the OFF result - called with the SAME generated, non-zero
+        # obliquity, which it is documented to ignore - must be the obliquity-0 definition F_lmp(0)^2 (cells that vanish
+        # at I = 0 absent or zero).  Keys beyond 2..L are not judged.
         L = l
+        routes = []
+        lk = _lookup()
+        if lk is not None and L in lk[0] and L in lk[1]:
+            routes.append(('inclination_functions_lookup[True|False][%d]' % L, lk[0][L], lk[1][L]))
+        else:
+            c.label('lookup:absent')
         hp = _helpers(L)
-        if hp is None:
+        if hp is not None and not (routes and hp[0] is routes[0][1] and hp[1] is routes[0][2]):
+            routes.append(('inclin_calc_orderl%d.inclination_on/off_maxl_%d' % (L, L), hp[0], hp[1]))
+        if not routes:
             c.label('multi:absent')
-            _check_coeffs(c, l)
-            return c.result()
-        fon, foff = hp
-        if path == 'multi_py':
-            fon, foff = _py(fon), _py(foff)
-        where = 'inclination_on/off_maxl_%d[%s]' % (L, path)
-        with repo_call(where):
-            ron = [_cache_safe(fon, x) for x in angles]
-            roff = [_cache_safe(foff, x) for x in angles]
-            rzero = _cache_safe(fon, 0.0)
-            degs_on = [sorted(int(k) for k in r.keys()) for r in ron]
-            degs_off = [sorted(int(k) for k in r.keys()) for r in roff]
-            degs_on.append(sorted(int(k) for k in rzero.keys()))
-        want = list(range(2, L + 1))
-        c.check(all(set(want) <= set(d) for d in degs_on) and all(set(want) <= set(d) for d in degs_off),
-                {'clause': 'multi', 'L': L, 'kind': 'degrees'},
-                '%s returned degrees %s / %s, which do not contain %s' % (where, degs_on[0], degs_off[0], want))
-        for ll in want:
-            if not all(ll in d for d in degs_on + degs_off):
-                continue
+        c.label('multi:L%d' % L)
+        if any(x != 0.0 for x in angles):
+            c.label('multi:off_called_with_nonzero_obliquity')
+        for rname, fon, foff in routes:
+            c.label('route:lookup' if rname.startswith('inclination_functions_lookup') else 'route:module')
+            if path == 'multi_py':
+                fon, foff = _py(fon), _py(foff)
+            where = '%s[%s]' % (rname, path)
             with repo_call(where):
-                full = stack([_as_plain(r[ll]) for r in ron])
-                offt = stack([_as_plain(r[ll]) for r in roff])
-                zero = {k: float(v) for k, v in _as_plain(rzero[ll]).items()}
-            sub = Collector()
-            _check_full(sub, ll, full, angles, (n,), where + '[l=%d]' % ll)
-            _check_off(sub, ll, offt, zero, (n,), where + '[l=%d]' % ll)
-            for f_ in sub.fails:
-                # a cell that is wrong in the per-degree table is reported under its own signature; a helper
-                # that returns the WRONG degree's table shows up as many wrong cells -> report it as 'multi'
-                c.fails.append(f_)
-            if len(sub.fails) > 3:
-                c.fail({'clause': 'multi', 'L': L, 'l': ll, 'kind': 'wrong_table'},
-                       '%s: entry for degree %d is not the degree-%d table (%d cells differ); first: %s'
-                       % (where, ll, ll, len(sub.fails), sub.fails[0]['detail'][:300]))
+                ron = [_cache_safe(fon, x) for x in angles]
+                roff = [_cache_safe(foff, x) for x in angles]
+                rzero = _cache_safe(fon, 0.0)
+                degs_on = [sorted(int(k) for k in r.keys()) for r in ron]
+                degs_off = [sorted(int(k) for k in r.keys()) for r in roff]
+                degs_on.append(sorted(int(k) for k in rzero.keys()))
+            want = list(range(2, L + 1))
+            c.check(all(set(want) <= set(d) for d in degs_on) and all(set(want) <= set(d) for d in degs_off),
+                    {'clause': 'multi', 'L': L, 'kind': 'degrees'},
+                    '%s returned degrees %s / %s, which do not contain %s' % (where, degs_on[0], degs_off[0], want))
+            for ll in want:
+                if not all(ll in d for d in degs_on + degs_off):
+                    continue
+                with repo_call(where):
+                    full = stack([_as_plain(r[ll]) for r in ron])
+                    offt = stack([_as_plain(r[ll]) for r in roff])
+                    zero = {k: float(v) for k, v in _as_plain(rzero[ll]).items()}
+                sub_on, sub_off = Collector(), Collector()
+                _check_full(sub_on, ll, full, angles, (n,), where + '[l=%d]' % ll)
+                _check_off(sub_off, ll, offt, zero, (n,), where + '[off, l=%d, called with obliquity %s]' % (ll, angles[:3]))
+                # a cell that is wrong in the per-degree table is reported under its own signature; a helper that returns
+                # another table (wrong degree, or the ON table where the OFF table belongs) shows up as many wrong cells
+                c.fails.extend(sub_on.fails)
+                c.fails.extend(sub_off.fails)
+                for tab, sub in (('on', sub_on), ('off', sub_off)):
+                    if len(sub.fails) > 3:
+                        c.fail({'clause': 'multi', 'L': L, 'l': ll, 'table': tab, 'kind': 'wrong_table'},
+                               '%s: the %s entry for degree %d is not the degree-%d %s table (%d cells differ); first: %s'
+                               % (where, tab, ll, ll, tab, len(sub.fails), sub.fails[0]['detail'][:300]))
     _check_coeffs(c, l)
     return c.result()
